@@ -4,8 +4,8 @@ from props.framelib import *
 
 RULE = ("MC: Builder state machine on a toy window, all histories up to 4 builds over an abstract pool: every Finish frame is well formed, "
         "an overflowing put emits nothing; real-constant CRC theorems; TV: build_message sessions on fresh builders recorded with the put hook, "
-        "in BOTH build profiles (release, release+overflow-checks): for all supported message types normal-form messages, single-leaf "
-        "extremes (0, max, min, NaN, +-inf, None/Some), random value-tree mutants (ints, floats, options, list length/order/duplicates, "
+        "in BOTH build profiles (release, release+overflow-checks): for all supported message types normal-form messages, systematically every numeric leaf at {-inf, +inf, NaN, type min, type max} / {max, min, 0, mid, 1} (all leaves of small messages, an evenly spread rotating subset of large ones), single-leaf "
+        "extremes (None/Some), random value-tree mutants (ints, floats, options, list length/order/duplicates, "
         "text), MSM edge inputs (satellite 0/65/255, unrecognised signal, duplicates, mismatch, |S|x|G| around 64), SSR/1230 bias lists, "
         "GLONASS channel numbers at the i8 edge, the three wire-less variants; every Put must be a Builder step at the spec cursor and "
         "every returned frame must equal the spec's Finish frame and be well formed with the variant's number; a panic is rejected; "
@@ -22,7 +22,7 @@ def sig(ev, d, sess):
 
 
 def run_profile(chk, profile, per_type):
-    t = record("build", chk.path("build-%s.ndjson" % profile), profile=profile, seed=chk.seed, per_type=per_type)
+    t = record("build", chk.path("build-%s.ndjson" % profile), profile=profile, seed=chk.seed, per_type=per_type, work=10000 if per_type <= 10 else 60000, timeout=3000)
     r = tv("Trace_Build", "Trace_Build.cfg", t, reset_events=("NewBuilder",), shards=12, tag="C09-" + profile)
     chk.add_tv("build[%s]" % profile, r)
     for rj in r["rejects"]:
